@@ -201,15 +201,9 @@ def validated_oracle(run):
             return "returned %r, expected the hook's result" % (outcome[1],)
         return None
 
-    # 1. a disallowed character anywhere rejects the cell, whatever type and rule say
-    if any(not char.allowed for char in run["chars"]):
-        problem = verdict_is("FieldValueError")
-        if problem:
-            return "cell with a disallowed character: " + problem
-        if hook_calls:
-            return "cell with a disallowed character reached the value hook"
-        return "conforms"
-    # 2. logically empty cell
+    # 1. logically empty cell (fixed-width data: a cell consisting only of blanks) - decided before anything else: the
+    #    character guard is stated for NON-EMPTY cells, so a blank fixed cell is empty even if the blank is not among the
+    #    allowed characters
     logically_empty = run["kind"] == AText.EMPTY or (fixed and run["kind"] == AText.BLANKS)
     length = len(run["chars"])
     if fixed and length > 0:
@@ -227,6 +221,14 @@ def validated_oracle(run):
             return "empty cell (allowed to be empty: %s): %s" % (run["allowed_empty"], problem)
         if hook_calls:
             return "empty cell reached the value hook"
+        return "conforms"
+    # 2. a disallowed character anywhere in a non-empty cell rejects it, whatever type and rule say
+    if any(not char.allowed for char in run["chars"]):
+        problem = verdict_is("FieldValueError")
+        if problem:
+            return "cell with a disallowed character: " + problem
+        if hook_calls:
+            return "cell with a disallowed character reached the value hook"
         return "conforms"
     # 3. non-empty cell: length
     if fixed:
